@@ -1,6 +1,6 @@
 (* C03 property theorems. This file contains only statements closed by
    [exact lemma] and Print Assumptions. *)
-From V Require Import Common.Base C03.Num C03.SpecOps C03.NumProofs C03.Tree C03.Fold C03.PowProofs C03.MiniJS C03.Worlds C03.TreeProofs C03.TreeProofs2 C03.TreeProofs3 C03.TreeProofs4 C03.TreeProofs5 C03.TreeProofs6 C03.TreeProofs7 C03.TreeProofs8 C03.TreeProofs9 C03.TreeProofs10 C03.TreeProofs11 C03.TreeProofs12 C03.Refuted.
+From V Require Import Common.Base C03.Num C03.SpecOps C03.NumProofs C03.Tree C03.Fold C03.PowProofs C03.MiniJS C03.Worlds C03.TreeProofs C03.TreeProofs2 C03.TreeProofs3 C03.TreeProofs4 C03.TreeProofs5 C03.TreeProofs6 C03.TreeProofs7 C03.TreeProofs8 C03.TreeProofs9 C03.TreeProofs10 C03.TreeProofs13 C03.TreeProofs11 C03.TreeProofs12 C03.Refuted.
 
 (* js_ast.ToInt32 computes ECMA-262 ToInt32 for every float64 (finite dyadic of
    any magnitude, NaN, infinities), whatever Go's implementation-defined
@@ -238,26 +238,46 @@ Theorem values_look_the_same_typeof_mark_fixed :
 Proof. exact (conj (proj1 values_look_the_same_typeof_mark) mangle_if_typeof_mark_kept). Qed.
 Print Assumptions values_look_the_same_typeof_mark_fixed.
 
-(* MangleIfExpr (optional-chain insertion switched off): in every world_ok world,
-   whenever the conditional test ? yes : no evaluates, the expression MangleIfExpr
-   returns for it evaluates to the same trace, the same completion and the same
-   value.  Covers all rewrites of the function: comma hoisting, negated test, equal
-   branches (test kept or dropped when removable), boolean arms, a ? a : b => a || b,
-   a ? b : a => a && b, the six rewrites that merge an arm into the test
-   (nested conditional, comma, ||, &&), the merge of two calls that differ in their
-   first argument (also spread; recursive), and a != null ? a : b => a ?? b.
+(* TryToInsertOptionalChain (after fix 01a3711): when it turns the chain e guarded
+   by "test" into e', then e' completes like test when test throws, evaluates to
+   undefined (without evaluating any link) when test is null or undefined, and
+   otherwise evaluates exactly like e.
+   PARTIAL: [vls_ok] (canonical number literals); [spine_ok]: the optional-chain
+   flags along the chain are the three of the AST (the model carries them as
+   integers).
+   Full statement: the same without vls_ok. *)
+Theorem try_insert_optional_chain_sound_partial :
+  forall (W : world) test e e',
+    vls_ok test -> vls_ok e -> spine_ok e -> try_insert_optional_chain test e = Some e' ->
+    forall tr,
+      (forall tr1 z, eval W tr test = Some (tr1, Throw z) -> eval W tr e' = Some (tr1, Throw z)) /\
+      (forall a, eval W tr test = Some (tr, Val a) ->
+         (nullish a = true -> eval W tr e' = Some (tr, Val VUndef)) /\
+         (nullish a = false -> forall r, eval W tr e = Some r -> eval W tr e' = Some r)).
+Proof. intros W test e e' H1 H2 H3 H4. exact (proj2 (proj2 (tioc_sound W test e e' H1 H2 H3 H4))). Qed.
+Print Assumptions try_insert_optional_chain_sound_partial.
+
+(* MangleIfExpr: in every world_ok world, whenever the conditional test ? yes : no
+   evaluates, the expression MangleIfExpr returns for it evaluates to the same
+   trace, the same completion and the same value.  Covers all rewrites of the
+   function: comma hoisting, negated test, equal branches (test kept or dropped when
+   removable), boolean arms, a ? a : b => a || b, a ? b : a => a && b, the six
+   rewrites that merge an arm into the test (nested conditional, comma, ||, &&),
+   the merge of two calls that differ in their first argument (also spread;
+   recursive), a != null ? a : b => a ?? b, and a != null ? a.b.c : undefined =>
+   a?.b.c (optional-chain insertion, after fix 01a3711).
    The model is total (no fuel hypothesis: see mangle_if_total).
-   PARTIAL: noOptChain = true (the rewrite a != null ? a.b : undefined => a?.b is
-   not covered); [vls_ok] as for values_look_the_same_sound_partial;
-   [no_hole_args]: call arguments are not array holes.
-   Full statement: the same for noOptChain = false. *)
+   PARTIAL: [vls_ok] as for values_look_the_same_sound_partial; [no_hole_args]: call
+   arguments are not array holes; [spine_ok]: optional-chain flags are the three of
+   the AST.
+   Full statement: the same without these three well-formedness hypotheses. *)
 Theorem mangle_if_equiv_partial :
   forall (W : world), world_ok W ->
-  forall noNullish test yes no,
+  forall noNullish noOptChain test yes no,
     flags_ok W test -> flags_ok W yes -> flags_ok W no ->
     vls_ok test -> vls_ok yes -> vls_ok no ->
-    no_hole_args yes -> no_hole_args no ->
-    exists e', mangle_if (w_unbound W) noNullish true test yes no = Some e' /\
+    no_hole_args yes -> no_hole_args no -> spine_ok yes -> spine_ok no ->
+    exists e', mangle_if (w_unbound W) noNullish noOptChain test yes no = Some e' /\
       forall tr res, eval W tr (EIf test yes no) = Some res -> eval W tr e' = Some res.
 Proof. exact mangle_if_equiv_all. Qed.
 Print Assumptions mangle_if_equiv_partial.
